@@ -1,5 +1,6 @@
 """C20 - a supplementary graph resolves to the mapped option for each source architecture (DESIGN.md 6/C20)"""
 from hypothesis import strategies as st
+from ..strat import ints
 from .. import specs, refsel, build, dsgwalk
 from ..core import Result, viol, exc_sig
 
@@ -14,6 +15,8 @@ RULE = ('cases = generated source G-SEL spec x all its feasible final instances 
         'set = supplementary closure), errors expected for the negative variants, SupResolveError accepted only where the '
         'model says the selected option is ambiguous; one evaluation = one (source architecture, resolve); non-trivial = '
         'a nested supplementary choice or a source choice inactive in >= 1 architecture; distinct by sha1(case)')
+FUZZ_MODULES = ['adsg_core.graph.sup.dsg', 'adsg_core.graph.choices']   # thorough tier: atheris campaign over these modules (vf/fuzz.py)
+FUZZ_RUNS = 3000
 BUDGET = {'quick': 300, 'thorough': 6000}
 
 
@@ -24,15 +27,15 @@ def _case(draw, tier):
         src['nodes']['zz'] = {'k': 'gen'}
         src['nodes']['zy'] = {'k': 'gen'}
         src['choices'].append({'id': 'c0', 'origin': src['start'][0], 'opts': ['zz', 'zy']})
-    n_sup = draw(st.integers(1, 3))
+    n_sup = draw(ints(1, 3))
     sup_choices = []
     for i in range(n_sup):
-        n_opts = draw(st.integers(2, 3))
+        n_opts = draw(ints(2, 3))
         origin = 'r'
-        r = draw(st.integers(0, 3)) if i > 0 else 0
+        r = draw(ints(0, 3)) if i > 0 else 0
         if r in (1, 2):
-            j = draw(st.integers(0, i-1))
-            origin = f'u{j}o{draw(st.integers(0, sup_choices[j]["n_opts"]-1))}'
+            j = draw(ints(0, i-1))
+            origin = f'u{j}o{draw(ints(0, sup_choices[j]["n_opts"]-1))}'
         elif r == 3:
             # below a node that options of (up to) two different earlier choices derive
             origin = 'sh'
@@ -40,30 +43,30 @@ def _case(draw, tier):
         if kind == 'option':
             multi = [c for c in src['choices'] if len(c['opts']) >= 2]
             sc = draw(st.sampled_from(multi or src['choices']))
-            table = {o: draw(st.integers(0, n_opts-1)) for o in sc['opts']}
-            table['None'] = draw(st.integers(0, n_opts-1))
+            table = {o: draw(ints(0, n_opts-1)) for o in sc['opts']}
+            table['None'] = draw(ints(0, n_opts-1))
             m = {'kind': 'option', 'src_choice': sc['id'], 'table': table}
         else:
             names = list(src['nodes'])
             order = draw(st.lists(st.sampled_from(names), min_size=1, max_size=3, unique=True))
-            m = {'kind': 'exist', 'order': order, 'table': [draw(st.integers(0, n_opts-1)) for _ in order],
-                 'none': draw(st.integers(0, n_opts-1))}
+            m = {'kind': 'exist', 'order': order, 'table': [draw(ints(0, n_opts-1)) for _ in order],
+                 'none': draw(ints(0, n_opts-1))}
         sup_choices.append({'id': f'u{i}', 'origin': origin, 'n_opts': n_opts, 'map': m,
                             'child': draw(st.booleans())})
     sup_edges = []
     if any(ch['origin'] == 'sh' for ch in sup_choices):
         first_sh = min(i for i, ch in enumerate(sup_choices) if ch['origin'] == 'sh')
-        for _ in range(draw(st.integers(1, 2))):
-            j = draw(st.integers(0, first_sh-1))
+        for _ in range(draw(ints(1, 2))):
+            j = draw(ints(0, first_sh-1))
             if sup_choices[j]['origin'] == 'sh':
                 continue
-            e = [f'u{j}o{draw(st.integers(0, sup_choices[j]["n_opts"]-1))}', 'sh']
+            e = [f'u{j}o{draw(ints(0, sup_choices[j]["n_opts"]-1))}', 'sh']
             if e not in sup_edges:
                 sup_edges.append(e)
         later = [i for i, ch in enumerate(sup_choices) if i > first_sh and ch['origin'] == 'r']
         if later and draw(st.booleans()):
             j = draw(st.sampled_from(later))
-            sup_edges.append([f'u{j}o{draw(st.integers(0, sup_choices[j]["n_opts"]-1))}', 'sh'])
+            sup_edges.append([f'u{j}o{draw(ints(0, sup_choices[j]["n_opts"]-1))}', 'sh'])
         if not sup_edges:
             sup_edges.append(['u0o0', 'sh'])
     neg = draw(st.sampled_from([None, None, None, None, 'unmapped', 'dup', 'missing_none', 'nonfinal']))
@@ -71,12 +74,12 @@ def _case(draw, tier):
     map_order = draw(st.permutations(list(range(n_sup))))
     # chained: a second supplementary graph whose source is the first one (1 in 3 of the positive cases)
     chain = None
-    if neg is None and draw(st.integers(0, 2)) == 0:
-        j = draw(st.integers(0, n_sup-1))
-        n2 = draw(st.integers(2, 3))
+    if neg is None and draw(ints(0, 2)) == 0:
+        j = draw(ints(0, n_sup-1))
+        n2 = draw(ints(2, 3))
         chain = {'on': j, 'n_opts': n2,
-                 'table': {str(o): draw(st.integers(0, n2-1)) for o in range(sup_choices[j]['n_opts'])},
-                 'none': draw(st.integers(0, n2-1))}
+                 'table': {str(o): draw(ints(0, n2-1)) for o in range(sup_choices[j]['n_opts'])},
+                 'none': draw(ints(0, n2-1))}
     return {'src': src, 'sup': sup_choices, 'neg': neg, 'sup_edges': sup_edges, 'map_order': list(map_order),
             'chain': chain}
 
